@@ -1135,6 +1135,13 @@ int main(int argc, char** argv) {
             for (int i = 0; i < 15; i++) { unsigned v; sscanf(argv[2] + 2 * i, "%2x", &v); in[i] = (unsigned char)v; }
             fcp::can::frame_t f; std::memcpy(f.bus.data(), in, 4); std::memcpy(&f.sid, in + 4, 2); f.dlc = in[6];
             std::memcpy(f.data.data(), in + 7, 8);
+            if (argc > 3) {   // an earlier frame on the same Can object
+                unsigned char in0[15];
+                for (int i = 0; i < 15; i++) { unsigned v; sscanf(argv[3] + 2 * i, "%2x", &v); in0[i] = (unsigned char)v; }
+                fcp::can::frame_t g; std::memcpy(g.bus.data(), in0, 4); std::memcpy(&g.sid, in0 + 4, 2); g.dlc = in0[6];
+                std::memcpy(g.data.data(), in0 + 7, 8);
+                try { (void)can.Decode(g); } catch (...) {}
+            }
             auto r = can.Decode(f);
             if (!r.has_value()) { printf("nullopt\n"); return 0; }
             printf("%s %s\n", r->first.c_str(), r->second.dump().c_str());
@@ -1201,7 +1208,10 @@ def replay_can_decode(d):
 
     e = d["expected"]
     hexin = "".join(f"{b:02x}" for b in d["frame"])
-    for cc, rc, so in _native_can(d, ["d", hexin]):
+    argv = ["d", hexin]
+    if d.get("first_frame") and d.get("_primed"):
+        argv.append("".join(f"{b:02x}" for b in d["first_frame"]))
+    for cc, rc, so in _native_can(d, argv):
         if rc == "compile-error":
             return True, f"does not compile with {cc}: {so[-200:]}"
         if e["name"] is None:
